@@ -90,10 +90,12 @@ class C12Observer(SP.Observer):
                 role = "in-trash-at-shutdown"
             elif c in snap["current"]:
                 role = "current-at-shutdown"
-            elif c.opened_at <= snap["t"]:
-                role = "connecting-at-shutdown"
-            else:
+            elif c.opened_at > snap["t"]:
                 role = "opened-after-shutdown"
+            elif c.factory_returned_at is None or c.factory_returned_at >= snap["t"] - 1e-3:
+                role = "connecting-at-shutdown"      # connection_factory had not returned when shutdown began
+            else:
+                role = "set-aside-before-shutdown"    # established earlier, no longer referenced by the pool
             ctx.fail(["C12.final.open", type(p).__name__, role],
                      "after Session/Cluster shutdown and quiescence connection #%d (opened at t=%.3f by %s, in_flight=%d, "
                      "orphans=%r) of %s is still open; pool shut down at %s by %s; role: %s" % (
@@ -143,8 +145,9 @@ def _run(case, ctx, sim):
         ctx.label("has:trash")
     if any(s["trash"] for s in m.shutdowns.values()):
         ctx.label("has:trash-at-shutdown")
-    if any(c.opened_at <= s["t"] and c not in s["current"] and c not in s["trash"] and m.pool_of(c) is s["pool"]
-           and not (c.is_closed and getattr(c, "close_snapshot", None) is None)
+    if any(c.opened_at <= s["t"] and m.pool_of(c) is s["pool"] and
+           (c.factory_returned_at is None or c.factory_returned_at >= s["t"] - 1e-3) and
+           not (c.is_closed and getattr(c, "close_snapshot", None) is None)
            for s in m.shutdowns.values() for c in conns):
         ctx.label("has:connect-in-progress-at-shutdown")
     if m.dead_borrows:
@@ -162,12 +165,36 @@ def s_case(gran, pvs, **kw):
     return SP.s_case(st, "c12", gran, pvs, **kw)
 
 
+def s_trash():
+    """HostConnectionPool growth beyond the core size and the 10 s trash interval: a pool of 1 core / 2-3 max
+    connections grows under load, time passes, and returns at <= min_requests set a busy connection aside"""
+    tail = st.one_of(
+        st.tuples(st.just("send"), st.sampled_from([3, 3, 2, 0])),
+        st.tuples(st.just("answer"), st.integers(0, 7), st.sampled_from(["rows", "rows", "void", "overloaded", "drop"])),
+        st.tuples(st.just("answer"), st.integers(0, 7), st.sampled_from(["rows", "rows", "void", "drop", "drop"])),
+        st.tuples(st.just("advance"), st.sampled_from([0.35, 1.1, 6.0, 11.0])),
+        st.tuples(st.just("session_shutdown")),
+        st.tuples(st.just("renew")),
+        st.tuples(st.just("kill"), st.integers(0, 2), st.sampled_from(["close", "reset", "explicit"])),
+        st.tuples(st.just("borrow_dead"), st.integers(0, 2)),
+    )
+    ev = st.tuples(st.integers(3, 7), st.sampled_from([11.0, 11.0, 6.0]), st.lists(tail, min_size=2, max_size=14)).map(
+        lambda t: [["burst", t[0], 3], ["advance", t[1]]] + [list(e) for e in t[2]])
+    return SP.s_case(st, "c12", "blocking", [1, 2, 2], mifs=(4, 5, 8), extra={
+        "poolcfg": st.sampled_from([{"core": 1, "max": 2, "min_req": 1, "max_req": 2},
+                                    {"core": 1, "max": 3, "min_req": 1, "max_req": 2},
+                                    {"core": 1, "max": 3, "min_req": 2, "max_req": 3},
+                                    {"core": 2, "max": 3, "min_req": 1, "max_req": 2}]),
+        "events": ev, "delay": st.sampled_from([0.0, 0.0, 0.2])})
+
+
 def parts(tier):
     return [
         hyp_part("v3plus", lambda: s_case("blocking", [3, 4, 4, 5]), interpret, tier, quick=110, thorough=1500,
                  quick_shards=4, thorough_shards=8),
         hyp_part("v1v2", lambda: s_case("blocking", [1, 2, 2]), interpret, tier, quick=90, thorough=1200,
                  quick_shards=3, thorough_shards=5),
+        hyp_part("v1v2trash", s_trash, interpret, tier, quick=80, thorough=800, quick_shards=1, thorough_shards=2),
         hyp_part("locks", lambda: s_case("locks", [2, 3, 4, 4, 5], mifs=MIFS_LOCKS), interpret, tier, quick=50, thorough=700,
                  quick_shards=1, thorough_shards=3),
     ]
